@@ -2071,6 +2071,29 @@ def atime_seek_program(rng, pid, cfg, cs):
     return {"id": pid, "cfg": cfg, "ops": ops, "origin": "stamps:atime-seek"}
 
 
+def stale_dir_program(rng, pid, cs):
+    """directories on clusters of several sectors that hold old data (a medium used before it was formatted, or clusters of a removed
+    file): a directory shows exactly the entries created in it, however many sectors of its clusters they reach, and can be removed
+    once they are gone"""
+    spc = cs // 512
+    vol = fmt((40 + 60 * spc) * 512, bpc=cs, fats=rng.choice([1, 2]), root=rng.choice([16, 32]), prefill=rng.choice([0xD1, 0xFF, 0x41, 0xE5]))
+    ops = []
+    if rng.random() < 0.5:      # old data from a removed file instead of (in addition to) the medium
+        ops += [{"op": "create_file", "at": "", "path": "big.bin", "as": "b"}, {"op": "write_all", "h": "b", "pat": 9, "len": 300 * cs}, {"op": "close", "h": "b"},
+                {"op": "remove", "at": "", "path": "big.bin"}, {"op": "unmount"}]
+    ops.append({"op": "create_dir", "at": "", "path": "d"})
+    n = rng.randrange(6, 6 + 16 * spc // 3 + 4)
+    for i in range(n):
+        ops.append({"op": rng.choice(["create_file", "create_file", "create_dir"]), "at": "", "path": "d/entry number %d.txt" % i})
+        if i % 5 == 4:
+            ops.append({"op": "list", "at": "", "path": "d"})
+    ops += [{"op": "list", "at": "", "path": "d"}, {"op": "create_dir", "at": "", "path": "d/sub"}, {"op": "list", "at": "", "path": "d/sub"}, {"op": "remove", "at": "", "path": "d/sub"}]
+    for i in range(n):
+        ops.append({"op": "remove", "at": "", "path": "d/entry number %d.txt" % i})
+    ops += [{"op": "list", "at": "", "path": "d"}, {"op": "remove", "at": "", "path": "d"}, {"op": "list", "at": "", "path": ""}, {"op": "unmount"}]
+    return {"id": pid, "cfg": {"vol": vol}, "ops": ops, "origin": "ns:stale-dir"}
+
+
 def with_remounts(prog, rng, k=2):
     """insert k session ends (unmount / dropfs) at random positions: handles still open are closed by the executor"""
     ops = list(prog["ops"])
